@@ -54,6 +54,14 @@ impl Registry {
 // ------------------------------------------------------------------------------------------------ abstraction
 fn id_of(it: &mut Interner, idcert: &Value) -> u64 { it.get("id", idcert["public_key"].as_str().unwrap_or("?")) }
 
+/// The number of the ID key of an ID certificate as it is stored in a command (base64 of the certificate).
+fn idcert_number(it: &mut Interner, idcert: &Value) -> u64 {
+    match serde_json::from_value::<rpki::ca::idcert::IdCert>(idcert.clone()) {
+        Ok(c) => { let info = serde_json::to_value(krill::api::ca::IdCertInfo::from(&c)).unwrap(); id_of(it, &info) }
+        Err(_) => panic!("harness: stored ID certificate does not decode"),
+    }
+}
+
 fn objs_term(it: &mut Interner, o: &Value) -> String {
     let mut keys: Vec<u64> = o["issued"].as_object().map(|m| m.keys().map(|k| it.get("key", k)).collect()).unwrap_or_default();
     keys.sort();
@@ -83,7 +91,7 @@ fn child_term(it: &mut Interner, ch: &Value) -> String {
     let used: Vec<String> = sorted_map(&ch["used_keys"]).iter().map(|(k, s)| format!("({}, {})", it.get("key", k), if s.as_str() == Some("revoked") { "Revoked" } else { "InUse" })).collect();
     let reqs: Vec<String> = sorted_map(&ch["open_requests"]).iter().map(|(k, r)| format!("({}, {})", it.get("key", k), creq_term(it, r))).collect();
     let resps: Vec<String> = sorted_map(&ch["open_responses"]).iter().map(|(k, r)| format!("({}, {})", it.get("key", k), cresp_term(it, r))).collect();
-    format!("(mkChild {} {} {})", coq_list(&used), coq_list(&reqs), coq_list(&resps))
+    format!("(mkChild {} {} {} {})", id_of(it, &ch["id"]), coq_list(&used), coq_list(&reqs), coq_list(&resps))
 }
 
 fn sinfo_term(it: &mut Interner, s: &Value) -> String {
@@ -345,7 +353,7 @@ fn emit(w: &mut World, before: &Snap, after: &Snap, op: &Value, hist: u64, ov: O
                 }
                 ("response".into(), format!("(PResponse {t})"))
             } else if let Some(c) = d.get("AddChild") {
-                ("add_child".into(), format!("(PAddChild {})", w.it.get("child", c["handle"].as_str().unwrap_or("?"))))
+                ("add_child".into(), format!("(PAddChild {} {})", w.it.get("child", c["handle"].as_str().unwrap_or("?")), idcert_number(&mut w.it, &c["id_cert"])))
             } else if let Some(a) = d.get("AddChildRequest") {
                 let key = serde_json::from_value::<ProvisioningRequest>(a[1].clone()).map(|r| r.key_identifier().to_string()).unwrap_or_default();
                 ("child_request".into(), format!("(PAddReq {} {} {})", w.it.get("child", a[0].as_str().unwrap_or("?")), w.it.get("key", &key), creq_term(&mut w.it, &a[1])))
@@ -615,7 +623,7 @@ fn run_history(args: &Args, hist: u64, seed: u64, flags: &Flags, out: &Mutex<Out
         }
         // the second of two handlers for a response the manager has just handed over
         if let Some((c, k)) = w.last_given.take() { if rng.chance(75) { regive(&mut w, &c, &k, "just-handed-over", hist, out); } }
-        let kind = rng.weighted(&[16, 8, 6, 4, 12, 14, 6, 7, 5, 4, 3, 4, 13, 5]);
+        let kind = rng.weighted(&[16, 8, 6, 4, 12, 14, 6, 7, 5, 4, 3, 4, 13, 5, 4]);
         match kind {
             0 => { let c = rng.pick(&w.children).clone();
                    let _ = step!(json!({"op": "child_sync", "child": c, "while_open": w.open_nonce(0).is_some()}), None, None, w.parties[0].sync_parent(&c, "ta").map(|_| ()).map_err(|e| e.to_string())); }
@@ -709,6 +717,11 @@ fn run_history(args: &Args, hist: u64, seed: u64, flags: &Flags, out: &Mutex<Out
                 if cands.is_empty() { continue }
                 let (k, why) = rng.pick(&cands).clone();
                 regive(&mut w, &c, &k, why, hist, out);
+            }
+            14 => { // a known child is presented again, with the ID certificate it has or with a new one
+                let c = rng.pick(&w.children).clone();
+                let same = rng.chance(50);
+                readd(&mut w, &c, same, "anywhere", hist, out);
             }
             12 => { // gauntlet on A: with a request open, everything that must be refused is tried before the honest answer
                 if w.open_nonce(0).is_none() { let _ = step!(json!({"op": "make_request", "party": 0}), None, None, make_request(&mut w, 0)); }
@@ -867,6 +880,50 @@ fn run_history(args: &Args, hist: u64, seed: u64, flags: &Flags, out: &Mutex<Out
         }
     }
 
+    // ---- a known child presented again (AddChild for a handle that exists), with the ID certificate it has and with a
+    //      fresh one, in every state of that child: nothing requested yet / request queued / request with the signer
+    //      (made; answered but not yet back) / response received but not collected / keys in use (/ and a new request
+    //      queued). One fresh child per state, so that what happens to one does not disturb the next; afterwards
+    //      every child collects what is waiting for it (delivery counts below).
+    {
+        if w.open_nonce(0).is_some() { honest_exchange!(0); }
+        if w.open_nonce(0).is_none() {
+            let zs: Vec<String> = (0..6).map(|i| format!("z{i}")).collect();
+            for (i, z) in zs.iter().enumerate() {
+                let _ = step!(json!({"op": "add_child", "child": z, "why": "to be presented again"}), None, None, { w.parties[0].add_ca(z).and_then(|_| w.parties[0].add_parent(z, "ta", res_for(10 + i))).map_err(|e| e.to_string()) });
+            }
+            let both = |w: &mut World, z: &str, state: &str| { readd(w, z, true, state, hist, out); readd(w, z, false, state, hist, out); };
+            both(&mut w, &zs[0], "nothing-requested-yet");
+            // (the first contact learns the entitlements, the second one sends the certificate request)
+            for round in 0..2 { for z in &zs { let _ = step!(json!({"op": "child_sync", "child": z, "why": "first request", "round": round}), None, None, w.parties[0].sync_parent(z, "ta").map(|_| ()).map_err(|e| e.to_string())); } }
+            both(&mut w, &zs[1], "request-queued");
+            let _ = step!(json!({"op": "make_request", "party": 0}), None, None, make_request(&mut w, 0));
+            let req = fetch_current(&mut w, 0);
+            both(&mut w, &zs[2], "request-with-signer");
+            if let Some(req) = req {
+                let s = w.assoc[0];
+                let _ = step!(json!({"op": "sign", "signer": w.signers[s].label, "request": "current"}), None, None, sign_at(&w, s, &req, None));
+                both(&mut w, &zs[3], "request-answered-by-signer");
+                if let Some(resp) = w.best_right(0) {
+                    let _ = step!(json!({"op": "respond", "party": 0, "response": "fresh"}), None, None, respond_to(&w, 0, &resp));
+                }
+                both(&mut w, &zs[4], "response-received-not-collected");
+            }
+            for z in &zs {
+                let _ = step!(json!({"op": "child_sync", "child": z, "why": "collect"}), None, None, w.parties[0].sync_parent(z, "ta").map(|_| ()).map_err(|e| e.to_string()));
+                if let Some((gc, gk)) = w.last_given.take() { regive(&mut w, &gc, &gk, "just-handed-over", hist, out); }
+            }
+            both(&mut w, &zs[5], "keys-in-use");
+            if !w.reinit_done {
+                let z = zs[5].clone();
+                let _ = step!(json!({"op": "roll_step", "child": z, "step": "init"}), None, None, w.parties[0].keyroll_init(&z).and_then(|_| w.parties[0].sync_parent(&z, "ta").map(|_| ())).map_err(|e| e.to_string()));
+                both(&mut w, &z, "keys-in-use,request-queued");
+            }
+        } else {
+            out.lock().unwrap().notes.push(json!({"history": hist, "scenario": "known child presented again", "skipped": "open request could not be closed"}));
+        }
+    }
+
     // ---- per child and key: responses received in accepted exchanges = responses handed over (+ still pending)
     {
         let pj = cur_proxy(&w, 0);
@@ -914,6 +971,59 @@ fn regive(w: &mut World, c: &str, key: &str, why: &str, hist: u64, out: &Mutex<O
         "class": {"kind": "proxy", "commands": "give", "results": res, "give_again": true, "response_pending_before": pending_before}});
     writeln!(o.jsonl, "{rec}").unwrap();
     o.distinct.insert(format!("G|{why}|{res}|{pending_before}"));
+    o.w.push(term);
+}
+
+/// AddChild for a handle the proxy already knows, through the manager (ca_add_child for "ta"), with the ID certificate
+/// the child has (`same`) or with a freshly made one. The case is built from the result of the call itself.
+fn readd(w: &mut World, c: &str, same: bool, state: &str, hist: u64, out: &Mutex<Out>) {
+    use std::io::Write;
+    let before = snap(w);
+    let pre = before.proxies[0].clone();
+    if pre["child_details"].get(c).is_none() { return }
+    let id_cert = { let sys = &w.parties[0];
+        if same { sys.krill.ca_manager().get_ca(&ca_handle(c)).expect("harness: child CA").child_request().validate().expect("harness: child request") }
+        else { sys.krill.signer().create_self_signed_id_cert().expect("harness: fresh ID certificate") } };
+    let idn = { let info = serde_json::to_value(krill::api::ca::IdCertInfo::from(&id_cert)).unwrap(); id_of(&mut w.it, &info) };
+    let same_key = pre["child_details"][c]["id"]["public_key"] == serde_json::to_value(krill::api::ca::IdCertInfo::from(&id_cert)).unwrap()["public_key"];
+    let r = { let sys = &w.parties[0];
+        let req = krill::api::admin::AddChildRequest { handle: child_handle(c), resources: resources("AS65500-AS65510", "10.200.0.0/16", ""), id_cert };
+        krill_call(|| sys.krill.ca_manager().ca_add_child(&ta_handle(), req, &sys.actor, &sys.krill).map(|_| ()).map_err(|e| e.to_string())) };
+    let after = snap(w);
+    let post = after.proxies[0].clone();
+    let (err, res) = match &r { Ok(()) => ("None".to_string(), "ok".to_string()), Err(e) => (format!("(Some {})", perr_of(e)), perr_of(e).to_string()) };
+    let same_json = strip_version(&pre) == strip_version(&post);
+    let ci = w.it.get("child", c);
+    let term = format!("CProxy {} [mkPStep (PAddChild {ci} {idn}) {err}] {} {}", proxy_term(&mut w.it, &pre), proxy_term(&mut w.it, &post), same_json);
+    let count = |p: &Value, f: &str| p["child_details"][c][f].as_object().map(|m| m.len()).unwrap_or(0);
+    let which = if same { "same-id-cert" } else { "other-id-cert" };
+    let mut o = out.lock().unwrap();
+    if same != same_key { o.harness_errors.push(format!("history {hist}: re-add of {c} meant with {which} but the keys say otherwise")); }
+    *o.op_hist.entry("add_again".into()).or_default() += 1;
+    *o.kind_hist.entry("proxy:add_again".into()).or_default() += 1;
+    *o.result_hist.entry(format!("proxy:add_again:{state}:{which}:{res}")).or_default() += 1;
+    if count(&pre, "open_responses") > 0 && !same { *o.kind_hist.entry("proxy:add_again:other-id-cert-while-response-waits".into()).or_default() += 1; }
+    // is the child in the state the scenario means it to be in?
+    let (q, rr, u) = (count(&pre, "open_requests"), count(&pre, "open_responses"), count(&pre, "used_keys"));
+    let as_meant = match state {
+        "nothing-requested-yet" => q == 0 && rr == 0 && u == 0,
+        "request-queued" => q > 0 && rr == 0 && u == 0 && pre["open_signer_request"].is_null(),
+        "request-with-signer" | "request-answered-by-signer" => q > 0 && rr == 0 && !pre["open_signer_request"].is_null(),
+        "response-received-not-collected" => rr > 0,
+        "keys-in-use" => u > 0 && q == 0 && rr == 0,
+        "keys-in-use,request-queued" => u > 0 && q > 0,
+        _ => false,
+    };
+    if as_meant { *o.kind_hist.entry(format!("proxy:add_again:as-meant:{state}:{which}")).or_default() += 1; }
+    let rec = json!({"index": o.w.total, "history": hist, "aggregate": "proxy A", "op": {"op": "add_again", "child": c, "id_cert": which, "child_state": state,
+            "result": match &r { Ok(()) => "ok".to_string(), Err(e) => e.chars().take(120).collect::<String>() }},
+        "child_before": {"used_keys": count(&pre, "used_keys"), "open_requests": count(&pre, "open_requests"), "open_responses": count(&pre, "open_responses")},
+        "child_after": {"used_keys": count(&post, "used_keys"), "open_requests": count(&post, "open_requests"), "open_responses": count(&post, "open_responses")},
+        "commands": ["add_child"], "results": [res], "json_unchanged": same_json,
+        "class": {"kind": "proxy", "commands": "add_child", "results": res, "add_again": true, "same_id_cert": same, "child_state": state}});
+    writeln!(o.jsonl, "{rec}").unwrap();
+    o.distinct.insert(format!("A|{state}|{which}|{res}|{}q/{}r/{}u", count(&pre, "open_requests"), count(&pre, "open_responses"), count(&pre, "used_keys")));
+    if o.samples.len() < 8 && state == "response-received-not-collected" && !same { o.samples.push(rec); }
     o.w.push(term);
 }
 
@@ -976,11 +1086,15 @@ fn main() {
     o.w.flush();
     if n_hist > 0 && flags.n_ops > 0 && !o.kind_hist.contains_key("signer:processed-request-of-2+-children") { o.harness_errors.push("no signer request with requests of two or more children was processed in this run".into()); }
     if n_hist >= 2 && flags.n_ops >= 10 && !o.op_hist.contains_key("signer_reinit") { o.harness_errors.push("no signer re-initialisation happened in this run".into()); }
+    if n_hist > 0 { for state in ["nothing-requested-yet", "request-queued", "request-with-signer", "request-answered-by-signer", "response-received-not-collected", "keys-in-use", "keys-in-use,request-queued"] {
+        for which in ["same-id-cert", "other-id-cert"] {
+            if !o.kind_hist.contains_key(&format!("proxy:add_again:as-meant:{state}:{which}")) { o.harness_errors.push(format!("no known child was presented again with {which} in state {state}")); } } } }
+    if n_hist > 0 && !o.kind_hist.contains_key("proxy:add_again:other-id-cert-while-response-waits") { o.harness_errors.push("no known child was presented again with another ID certificate while a response waited for it".into()); }
     if o.unknown_blobs > 0 { let n = o.unknown_blobs; o.harness_errors.push(format!("{n} signed blobs of unknown origin (bookkeeping of who signed what)")); }
     write_json(&args.out.join("stats.json"), &json!({
         "scenario": "c15", "seed": args.seed, "tier": args.tier, "histories": n_hist, "ops_per_history": flags.n_ops, "wedge": flags.wedge, "late": flags.late,
         "evaluations": o.w.total, "distinct_nontrivial": o.distinct.len(),
-        "rule": "random histories on two embedded trust anchors A and B plus a harness-owned re-initialised signer A2 (same TA key) and 2-4 CAs directly under A's ta: child syncs, key rolls (issuance and revocation requests), embedded exchanges, make/get request, requests handed to any of the three signers (current, replayed, stale, cross-wired, clear text altered under the original signature, forced manifest number), responses handed to the proxies (fresh, replayed, stale, right nonce but other signer, cross-wired, altered), signer re-initialisation, revocation calls through the manager; hand-over commands sent a second time or for keys without a pending response; one case per (operation, aggregate whose stored history grew): state before, stored commands with outcome, state after; non-trivial = at least one stored command; distinct = distinct (aggregate, command kinds, outcomes, message provenance/alteration, open-or-not)",
+        "rule": "random histories on two embedded trust anchors A and B plus a harness-owned re-initialised signer A2 (same TA key) and 2-4 CAs directly under A's ta: child syncs, key rolls (issuance and revocation requests), embedded exchanges, make/get request, requests handed to any of the three signers (current, replayed, stale, cross-wired, clear text altered under the original signature, forced manifest number), responses handed to the proxies (fresh, replayed, stale, right nonce but other signer, cross-wired, altered), signer re-initialisation, revocation calls through the manager; hand-over commands sent a second time or for keys without a pending response; AddChild for a handle that exists, with the ID certificate the child has and with a fresh one, at random points and - six fresh children per history - in every state of the child (nothing requested yet, request queued, request with the signer, answered by the signer but not yet back, response received but not collected, keys in use, keys in use and a new request queued); one case per (operation, aggregate whose stored history grew): state before, stored commands with outcome, state after; non-trivial = at least one stored command; distinct = distinct (aggregate, command kinds, outcomes, message provenance/alteration, open-or-not)",
         "op_distribution": o.op_hist, "command_distribution": o.kind_hist, "result_distribution": o.result_hist, "message_distribution": o.alter_hist,
         "samples": o.samples, "impl_failures": o.impl_failures, "notes": o.notes, "harness_errors": o.harness_errors,
     }));
